@@ -394,6 +394,100 @@ def _generate(api):
              % ('true' if (n_helper == 3 and n_direct == 0 and helper_ok) else 'false', n_helper, n_direct, helper_ok))
     L.append("Definition c20_draw_guard_ok : bool := %s.   (* render_svg: %d draw_pixmap call(s) guarded by IntRect::from_xywh(..).is_some() *)"
              % ('true' if (guard and n_draw == 1) else 'false', n_draw))
+    # ---------------------------------------------------------------- render_svg: source-derived control skeleton (round 4, 2nd pass)
+    # Every fallible expression (`?`, `return Err`) of render_svg must be one of the recognised steps; the steps are emitted in
+    # source order per branch: --export-id, its trailing `if args.export_area_page {..}` block, normal, its --export-area-drawing arm.
+    def block_at(text, i):
+        d = 0
+        j = i
+        while True:
+            if text[j] == '{':
+                d += 1
+            elif text[j] == '}':
+                d -= 1
+                if d == 0:
+                    return j
+            j += 1
+    m_e = re.search(r"let img = if let Some\(ref id\) = args\.export_id \{", rb)
+    if not m_e:
+        raise U("render_svg: `let img = if let Some(ref id) = args.export_id {` not found")
+    e0 = m_e.end() - 1
+    e1 = block_at(rb, e0)
+    m_n = re.match(r"\s*else \{", rb[e1 + 1:])
+    if not m_n:
+        raise U("render_svg: the normal (else) branch not found")
+    n0 = e1 + 1 + m_n.end() - 1
+    n1 = block_at(rb, n0)
+    if not re.match(r"\s*;\s*if args\.perf \{.*?\}\s*Ok\(img\)\s*\}\s*$", rb[n1 + 1:]):
+        raise U("render_svg: unexpected statements after `let img = ..;`")
+    exp_t, nor_t = rb[e0 + 1:e1], rb[n0 + 1:n1]
+    m_p = re.search(r"if args\.export_area_page \{(?=(?:(?!if args\.export_area_page).)*$)", exp_t)
+    if not m_p:
+        raise U("render_svg: trailing `if args.export_area_page {` block not found")
+    p0 = m_p.end() - 1
+    p1 = block_at(exp_t, p0)
+    if not (re.search(r"page_pixmap \}$", exp_t[:p1 + 1].rstrip()) and re.match(r"\s*else \{ pixmap \}\s*$", exp_t[p1 + 1:])):
+        raise U("render_svg: the --export-area-page block must end with `page_pixmap } else { pixmap }`")
+    m_d = re.search(r"if args\.export_area_drawing \{ (trim_pixmap\(tree, ts, &pixmap\)\.unwrap_or\(pixmap\)) \} else \{ pixmap \}\s*$", nor_t)
+    if not m_d:
+        raise U("render_svg: `if args.export_area_drawing { trim_pixmap(tree, ts, &pixmap).unwrap_or(pixmap) } else { pixmap }` not found")
+    RSTEPS = [
+        ('RsLookup', r"let node = match tree\.node_by_id\(id\) \{ Some\(node\) => node, None => return Err\(format!\(\"([^\"]*)\", id\)\), \};", True),
+        ('RsNodeBox', r"let bbox = node \.abs_layer_bounding_box\(\) \.ok_or_else\(\|\| \"([^\"]*)\"\.to_string\(\)\)\?;", True),
+        ('RsFit', r"let size = args \.fit_to \.fit_to_size\((tree|bbox)\.size\(\)\.to_int_size\(\)\) \.ok_or_else\(\|\| \"([^\"]*)\"\.to_string\(\)\)\?;", True),
+        ('RsAlloc', r"let mut (?:pixmap|page_pixmap) = new_pixmap\(size\)\?;", True),
+        ('RsRenderNode', r"resvg::render_node\(node, ts, &mut pixmap\.as_mut\(\)\);", False),
+        ('RsRender', r"resvg::render\(tree, ts, &mut pixmap\.as_mut\(\)\);", False),
+        ('RsDraw', r"page_pixmap\.draw_pixmap\(", False),
+        ('RsTrim', r"trim_pixmap\(tree, ts, &pixmap\)\.unwrap_or\(pixmap\)", False),
+    ]
+
+    def scan(text):
+        ev = []
+        nf = 0
+        for name, pat, fallible in RSTEPS:
+            for mm in re.finditer(pat, text):
+                if name == 'RsFit':
+                    ev.append((mm.start(), "RsFit %s %s" % (cn[mm.group(1)], coq_str(mm.group(2)))))
+                elif name in ('RsLookup', 'RsNodeBox'):
+                    ev.append((mm.start(), "%s %s" % (name, coq_str(mm.group(1)))))
+                else:
+                    ev.append((mm.start(), name))
+                nf += fallible
+        ev.sort()
+        n_src = len(re.findall(r"\?\s*;|\?\s*\)|\?\s*\.|return Err\b|panic!|unreachable!|\.expect\(|\.unwrap\(\)", text))
+        if n_src != nf:
+            raise U("render_svg: %d fallible expressions in a branch, %d recognised" % (n_src, nf))
+        return ["(%s)" % x for _, x in ev]
+    seg_export = scan(exp_t[:m_p.start()])
+    seg_page = scan(exp_t[p0 + 1:p1])
+    seg_normal = scan(nor_t[:m_d.start()])
+    seg_drawing = scan(m_d.group(1))
+    L.append("(* %s :: render_svg, control skeleton: the steps of each branch in source order; every `?` / `return Err` is one of them *)" % REL)
+    L.append("Inductive rstep := RsLookup (msg : string) | RsNodeBox (msg : string) | RsFit (src : fit_source) (msg : string) | RsAlloc"
+             " | RsRenderNode | RsRender | RsDraw | RsTrim.")
+    L.append("Definition c20_render_export : list rstep := [%s]." % "; ".join(seg_export))
+    L.append("Definition c20_render_export_page : list rstep := [%s]." % "; ".join(seg_page))
+    L.append("Definition c20_render_normal : list rstep := [%s]." % "; ".join(seg_normal))
+    L.append("Definition c20_render_normal_drawing : list rstep := [%s]." % "; ".join(seg_drawing))
+    # the page offset of the exported node, translated as an expression (f2i32 = `as i32`: truncate, saturate)
+    try:
+        oast = rs.Parser(rs.tokenize("(" + om.group(1) + ")")).expr()
+        oem = rs.Emitter(dict(dom='Q', methods={'x': 'rx', 'y': 'ry', 'width': 'rw', 'height': 'rh'},
+                              fields={'sx': 't_sx', 'sy': 't_sy', 'tx': 't_tx', 'ty': 't_ty', 'kx': 't_kx', 'ky': 't_ky'},
+                              casts={'i32': 'f2i32', 'f32': None}))
+        L.append("(* %s :: render_svg, --export-area-page: where the node's pixmap is drawn on the page *)" % REL)
+        L.append("Definition page_offset_gen (bbox : qrect) (ts : ts) : Z * Z :=\n  %s." % oem.expr(oast))
+    except rs.Unsupported as ex:
+        raise U("render_svg: page offset expression outside the translated subset: %s" % ex)
+    # main: exit status and stderr message of a failed run
+    mp, mr, mb = rs.find_fn(src, 'main')
+    mm_ = re.match(r"\{ if let Err\(e\) = process\(\) \{ eprintln!\(\"Error: \{\}\.\", e\); std::process::exit\((\d+)\); \} \}$",
+                   re.sub(r"\s+", " ", mb).strip())
+    if not mm_:
+        raise U("main: expected `if let Err(e) = process() { eprintln!(\"Error: {}.\", e); std::process::exit(N); }`")
+    L.append("Definition c20_main_err_exit : Z := %s.   (* main: std::process::exit(N) after eprintln!(\"Error: {}.\", e) *)" % mm_.group(1))
+    L.append("")
     # ---------------------------------------------------------------- process: order of the steps
     params, ret, pbody = rs.find_fn(src, 'process')
     MARK = [('SParseArgs', r"\bparse_args\s*\("), ('SRead', r"std::fs::read\s*\("), ('SReadStdin', r"read_to_end\s*\("),
